@@ -864,7 +864,7 @@ def c06_query(kind, cov, lookup, sbox, smap, has_req):
 
 
 C06_REPLAY_MAIN = r'''
-// Native replay for C06 (transform consistency): a 4x4 source at zoom 2 whose tiles carry their own coordinates.
+// Native replay for C06 (transform consistency): a source at zoom 2 (coverage (0,0)-(2,1)) whose tiles carry their own coordinates.
 // For the given flags (and, optionally, a requested pyramid with the asymmetric level box (0,0)-(1,2)) every tile of the
 // ADVERTISED coverage must be returned by the lookup and delivered by the stream, carrying the source tile at its
 // pre-image under T = swap . flip.
@@ -894,7 +894,8 @@ async fn run() {
 	let args: Vec<String> = std::env::args().collect();
 	let (flip, swap, with_req) = (args[1] == "true", args[2] == "true", args.len() > 3 && args[3] == "true");
 	let mut pyr = TileBBoxPyramid::new_empty();
-	pyr.set_level_bbox(TileBBox::new(2, 0, 0, 3, 3).unwrap());
+	// asymmetric source coverage (3 x 2 tiles): a coverage that is not transformed shows
+	pyr.set_level_bbox(TileBBox::new(2, 0, 0, 2, 1).unwrap());
 	let echo = Echo { p: TilesReaderParameters::new(TileFormat::PBF, TileCompression::Uncompressed, pyr), tj: Default::default() };
 	let req = if with_req {
 		let mut r = TileBBoxPyramid::new_empty();
@@ -908,8 +909,11 @@ async fn run() {
 	let items = conv.get_bbox_tile_stream(TileBBox::new(2, 0, 0, 3, 3).unwrap()).await.collect().await;
 	for cx in 0..4u32 { for cy in 0..4u32 {
 		let c = TileCoord3::new(cx, cy, 2).unwrap();
-		if !advertised.contains_coord(&c) { continue; }
 		let (x, y) = pre(cx, cy);
+		// advertised coverage = image of the source coverage under T, restricted to the requested box
+		let want_adv = x <= 2 && y <= 1 && (!with_req || (cx <= 1 && cy <= 2));
+		if advertised.contains_coord(&c) != want_adv { bad += 1; println!("advertised coverage at ({cx},{cy}) is {} but the selected image of the source coverage says {}", advertised.contains_coord(&c), want_adv); }
+		if !advertised.contains_coord(&c) { continue; }
 		let want = format!("{},{},2", x, y);
 		let got = conv.get_tile_data(&c).await.unwrap();
 		if got.map(|b| b.as_str().to_string()) != Some(want.clone()) { bad += 1; println!("lookup at ({cx},{cy}) does not return source tile ({x},{y})"); }
